@@ -244,7 +244,7 @@ func fill(name string, v reflect.Value, sp *Spec, depth int, top bool) {
 		}
 		if sp.PresentAll || Bool(name+"?") {
 			nv := reflect.New(et)
-			fill(name, nv.Elem(), sp, d, false)
+			fill(name, nv.Elem(), sp, d, top)
 			v.Set(nv)
 		}
 	case reflect.Struct:
@@ -274,7 +274,7 @@ func fill(name string, v reflect.Value, sp *Spec, depth int, top bool) {
 		}
 		s := reflect.MakeSlice(v.Type(), n, n)
 		for i := 0; i < n; i++ {
-			fill(fmt.Sprintf("%s[%d]", name, i), s.Index(i), sp, d, false)
+			fill(fmt.Sprintf("%s[%d]", name, i), s.Index(i), sp, d, top)
 		}
 		v.Set(s)
 	case reflect.Array:
